@@ -73,6 +73,8 @@ MutOps(g) ==
            p \in Pairs, k \in {"", "w"} }
   \cup { [Op("remove_bond") EXCEPT !.a = p[1], !.b = p[2]] : p \in Pairs }
   \cup { [Op("set_atom_attr") EXCEPT !.a = a, !.k = "q", !.v = v] : a \in Ids, v \in Vals }
+  \* a free ATOM attribute that happens to be called like the bond attribute of reaction graphs
+  \cup { [Op("set_atom_attr") EXCEPT !.a = a, !.k = "reaction", !.v = 7] : a \in IF HasRoles(g.kind) THEN Ids ELSE {} }
   \cup { [Op("set_atom_attr") EXCEPT !.a = a, !.k = "atom_type", !.v = e] : a \in Ids, e \in Els \cup {BadEl} }
   \cup { [Op("del_atom_attr") EXCEPT !.a = a, !.k = k] : a \in Ids, k \in {"q", "atom_type"} }
   \cup { [Op("set_bond_attr") EXCEPT !.a = p[1], !.b = p[2], !.k = "w", !.v = v] : p \in Pairs, v \in Vals }
